@@ -65,6 +65,39 @@ def evsS {α} (f : α → String) (evs : List (Ev α)) : String :=
     | .item a => f a
     | .error e => "!" ++ e.name)
 
+def attrName? : String → Option AttrName
+  | "low" => some .lowPc
+  | "high" => some .highPc
+  | "ranges" => some .ranges
+  | "loc" => some .location
+  | "abase" => some .addrBase
+  | "gabase" => some .addrBase
+  | "rbase" => some .rnglistsBase
+  | "grbase" => some .rnglistsBase
+  | "lbase" => some .loclistsBase
+  | "other" => some .other
+  | _ => none
+
+def attrVal? (s : String) : Option AttrVal :=
+  match s.toList with
+  | ['o'] => some .other
+  | 'a' :: n => (String.ofList n).toNat?.map .addr
+  | 'x' :: n => (String.ofList n).toNat?.map .addrx
+  | 'u' :: n => (String.ofList n).toNat?.map .udata
+  | 'r' :: n => (String.ofList n).toNat?.map .secOffset
+  | 'i' :: n => (String.ofList n).toNat?.map .listx
+  | _ => none
+
+/-- `name=val,name=val,…` or `-` -/
+def attrs? (s : String) : Option Attrs :=
+  if s == "-" then some [] else
+  (s.splitOn ",").mapM fun t =>
+    match t.splitOn "=" with
+    | [n, v] => do pure ((← attrName? n), (← attrVal? v))
+    | _ => none
+
+def evsOut (r : Out (List (Ev Item))) : String := r.render (evsS itemS)
+
 def handle (op : String) (args : List String) : Option String :=
   match op, args with
   | "lists-raw", [k, c, dwo, off, legacy, v5] => do
@@ -94,6 +127,28 @@ def handle (op : String) (args : List String) : Option String :=
   | "lists-getaddr", [c, sec, base, idx] => do
       let c ← cfg? c; let sec ← parseHex sec; let base ← base.toNat?; let idx ← idx.toNat?
       pure ((getAddress c sec base idx).render toString)
+  | "lists-die", [c, dwo, root, die, addr, ranges, rnglists, loc, loclists] => do
+      let c ← cfg? c; let dwo ← bool? dwo; let root ← attrs? root; let die ← attrs? die
+      let addr ← parseHex addr; let ranges ← parseHex ranges; let rnglists ← parseHex rnglists
+      let loc ← parseHex loc; let loclists ← parseHex loclists
+      let secs : Sections := ⟨addr, ranges, rnglists, loc, loclists⟩
+      match unitBases c dwo secs root with
+      | .ok u =>
+        let locs := die.filterMap fun (n, v) => if n = .location then some v else none
+        let locS := match locs.head? with
+          | none => "none"
+          | some v =>
+            match attrLocations u secs v with
+            | .ok none => "none"
+            | .ok (some evs) => evsOut (.ok evs)
+            | .err e => "err " ++ e.name
+            | .panic w => "panic " ++ w
+            | .diverge => "diverge"
+        let us := evsOut (dieRanges u secs root)
+        let ds := evsOut (dieRanges u secs die)
+        let lp := u.lowPc; let ab := u.addrBase; let rb := u.rnglistsBase; let lb := u.loclistsBase
+        pure s!"ok {lp},{ab},{rb},{lb} | unit:{us} | die:{ds} | loc:{locS}"
+      | r => pure (r.render fun _ => "")
   | _, _ => none
 
 end Gimli.Drv.C08
